@@ -325,6 +325,11 @@ func (r *Router) LnS() {
 		go r.grpcServer.Serve(l)
 	}
 
+	if simNoListen {
+		// simulation builds drive r.server.Handler in-process; no socket is opened
+		return
+	}
+
 	r.doneWG.Add(1)
 	go func() {
 		defer r.doneWG.Done()
